@@ -10,7 +10,7 @@
 //!
 //! Variation that the specification does not distinguish is chosen deterministically from the
 //! case number: the wrapper the context is used through (value, `&C`, `dyn ErasedCtxt` with an
-//! inline frame, `dyn ErasedCtxt` with a boxed frame, `Option<C>`), `enter` guard vs raw
+//! inline frame, `dyn ErasedCtxt` with a boxed frame, `Option<C>`, `Box<C>`, `Arc<C>`), `enter` guard vs raw
 //! `Ctxt::enter/exit` on `into_parts`, `call` vs `in_fn`.
 use std::collections::HashMap;
 use std::future::Future;
@@ -82,6 +82,8 @@ enum AnyFrame {
     Ref(Frame<&'static ThreadLocalCtxt>),
     Dyn(Frame<&'static DynCtxt>),
     Opt(Frame<Option<ThreadLocalCtxt>>),
+    Bx(Frame<Box<ThreadLocalCtxt>>),
+    Ar(Frame<std::sync::Arc<ThreadLocalCtxt>>),
 }
 
 type Task = Pin<Box<dyn Future<Output = Leave> + Send>>;
@@ -249,12 +251,14 @@ impl Machine for M03 {
                 let inst = &self.insts[step["c"].as_u64().unwrap() as usize - 1];
                 let kind = step["kind"].as_str().unwrap();
                 let props = props_vec(&step["props"]);
-                let fr = match (salt + f) % 5 {
+                let fr = match (salt + f) % 7 {
                     0 => AnyFrame::Plain(open_generic(inst.tl, kind, &props)),
                     1 => AnyFrame::Ref(open_generic(inst.tl_ref, kind, &props)),
                     2 => AnyFrame::Dyn(open_generic(inst.erased, kind, &props)),
                     3 => AnyFrame::Dyn(open_generic(inst.erased_boxed, kind, &props)),
-                    _ => AnyFrame::Opt(open_generic(Some(inst.tl), kind, &props)),
+                    4 => AnyFrame::Opt(open_generic(Some(inst.tl), kind, &props)),
+                    5 => AnyFrame::Bx(open_generic(Box::new(inst.tl), kind, &props)),
+                    _ => AnyFrame::Ar(open_generic(std::sync::Arc::new(inst.tl), kind, &props)),
                 };
                 self.put_frame(f, fr);
                 reply_ok();
@@ -269,6 +273,8 @@ impl Machine for M03 {
                     AnyFrame::Ref(x) => x.with(|p| read_props(p, nk)),
                     AnyFrame::Dyn(x) => x.with(|p| read_props(p, nk)),
                     AnyFrame::Opt(x) => x.with(|p| read_props(p, nk)),
+                    AnyFrame::Bx(x) => x.with(|p| read_props(p, nk)),
+                    AnyFrame::Ar(x) => x.with(|p| read_props(p, nk)),
                 };
                 // a panic inside the callback, caught on the spot, must not cost the frame anything
                 let with_panic = |fr: &mut AnyFrame| {
@@ -277,6 +283,8 @@ impl Machine for M03 {
                         AnyFrame::Ref(x) => x.with(|_| panic!("probe")),
                         AnyFrame::Dyn(x) => x.with(|_| panic!("probe")),
                         AnyFrame::Opt(x) => x.with(|_| panic!("probe")),
+                        AnyFrame::Bx(x) => x.with(|_| panic!("probe")),
+                        AnyFrame::Ar(x) => x.with(|_| panic!("probe")),
                     });
                 };
                 with_panic(&mut fr);
@@ -285,6 +293,8 @@ impl Machine for M03 {
                     AnyFrame::Ref(x) => x.with(|p| read_props(p, nk)),
                     AnyFrame::Dyn(x) => x.with(|p| read_props(p, nk)),
                     AnyFrame::Opt(x) => x.with(|p| read_props(p, nk)),
+                    AnyFrame::Bx(x) => x.with(|p| read_props(p, nk)),
+                    AnyFrame::Ar(x) => x.with(|p| read_props(p, nk)),
                 };
                 self.put_frame(f, fr);
                 reply(json!({"sees": sees, "sees_after_panic": again}));
@@ -305,6 +315,8 @@ impl Machine for M03 {
                         AnyFrame::Ref(x) => { let (x, r) = guard_generic(x, variant, body); (AnyFrame::Ref(x), r) }
                         AnyFrame::Dyn(x) => { let (x, r) = guard_generic(x, variant, body); (AnyFrame::Dyn(x), r) }
                         AnyFrame::Opt(x) => { let (x, r) = guard_generic(x, variant, body); (AnyFrame::Opt(x), r) }
+                        AnyFrame::Bx(x) => { let (x, r) = guard_generic(x, variant, body); (AnyFrame::Bx(x), r) }
+                        AnyFrame::Ar(x) => { let (x, r) = guard_generic(x, variant, body); (AnyFrame::Ar(x), r) }
                     };
                     self.put_frame(f, fr);
                     rethrow(r)
@@ -314,6 +326,8 @@ impl Machine for M03 {
                         AnyFrame::Ref(x) => call_generic(x, variant, body),
                         AnyFrame::Dyn(x) => call_generic(x, variant, body),
                         AnyFrame::Opt(x) => call_generic(x, variant, body),
+                        AnyFrame::Bx(x) => call_generic(x, variant, body),
+                        AnyFrame::Ar(x) => call_generic(x, variant, body),
                     }
                 };
                 match leave {
@@ -337,6 +351,8 @@ impl Machine for M03 {
                     AnyFrame::Ref(x) => Box::pin(x.in_future(inner)),
                     AnyFrame::Dyn(x) => Box::pin(x.in_future(inner)),
                     AnyFrame::Opt(x) => Box::pin(x.in_future(inner)),
+                    AnyFrame::Bx(x) => Box::pin(x.in_future(inner)),
+                    AnyFrame::Ar(x) => Box::pin(x.in_future(inner)),
                 };
                 self.tasks.lock().unwrap().insert(k, task);
                 reply_ok();
